@@ -417,7 +417,7 @@ var perOp = []string{"OperationFor", "ConsumesFor", "ProducesFor", "SecurityRequ
 var perID = []string{"OperationForName", "ParametersFor", "SafeParametersFor/continue", "SafeParametersFor/stop"}
 
 func genConc(d *gen.D) *ConcCase {
-	api := gen.GenAPIDoc(d, gen.APICfg{MaxDepth: 2, MaxLayer: 2, Refs: true, PatEnum: true, OpsMeta: true})
+	api := gen.GenAPIDoc(d, gen.APICfg{MaxDepth: 2, MaxLayer: 2, Refs: true, PatEnum: true, OpsMeta: true, Params: true})
 	c := &ConcCase{Doc: api.Doc, Execs: 5}
 	if Thorough() {
 		c.Execs = 25
